@@ -16,6 +16,8 @@ c03_blocks.register(c03_multi.NetMulti())
 c03_blocks.register(c03_multi.CNN3d())
 c03_gen.GENERATORS.append(c03_multi.gen_multi)
 c03_gen.GENERATORS.append(c03_multi.gen_cnn3d)
+c03_blocks.register(c03_multi.NetAny())
+c03_gen.GENERATORS.append(c03_multi.gen_netany)
 
 
 class C03(vlib.Driver):
